@@ -51,6 +51,10 @@ def _helper_of(ctx, f: FuncInfo, call: ast.Call) -> FuncInfo | None:
         if h is not None and not h.is_abstract() and h is not f and not (h.node.args.vararg or h.node.args.kwarg) and not h.node.decorator_list:
             return h  # a static call of one definition: overriding constructors in subclasses do not matter
         return None
+    elif isinstance(fn, ast.Attribute) and isinstance(fn.value, ast.Name) and fn.value.id not in ("cls", "self") and _foreign_method(ctx, f, call) is not None:
+        # a method of another repository object held in a plain local / parameter (`message_buffer.park(m)`): one fixed
+        # body when mypy resolves the call to a single instance method that no subclass overrides
+        h = _foreign_method(ctx, f, call)
     elif isinstance(fn, ast.Name) and fn.id in (getattr(f, "nested", None) or {}):
         # a nested helper function called by its enclosing function: a closure reads the enclosing locals as they are
         # at the time of the call, which is what its body written out at the call does
@@ -76,12 +80,44 @@ def _helper_of(ctx, f: FuncInfo, call: ast.Call) -> FuncInfo | None:
     return h
 
 
+STABLE_ATTRS = ("set_messages", "internal_messages")  # never re-bound (sleepbuf BUFFER-ONCE / removal rules judge that)
+
+
+def _foreign_method(ctx, f: FuncInfo, call: ast.Call) -> FuncInfo | None:
+    try:
+        fact = ctx.prog.call_fact(f.module, call)
+    except Exception:  # noqa: BLE001
+        return None
+    if not fact or not fact[0] or "|" in fact[0] or not fact[0].startswith("aiomysensors."):
+        return None
+    try:
+        h = ctx.func(fact[0])
+    except Exception:  # noqa: BLE001
+        return None
+    if h is None or h.cls is None or h.node.decorator_list or h.name.startswith("__") or h.name != call.func.attr:
+        return None
+    pp = h.positional_params
+    if not pp or pp[0] != "self":
+        return None
+    # only bookkeeping methods: a private method, or a method of the record that carries the sleep buffers
+    if not ((h.name.startswith("_") and not h.name.startswith("__")) or _carries_buffers(h.cls)):
+        return None
+    if any(isinstance(n, (ast.Await, ast.Yield, ast.YieldFrom)) for n in ast.walk(h.node)):
+        return None
+    return h
+
+
+def _carries_buffers(cls) -> bool:
+    return any(isinstance(st, ast.AnnAssign) and isinstance(st.target, ast.Name) and st.target.id in STABLE_ATTRS for st in cls.node.body)
+
+
 def _fold_guard_returns(body: list, parents: dict) -> list:
     """[if c: return] + rest  ->  [if c: pass else: rest]   (only for a bare `return` as the whole guard body)."""
     for i, st in enumerate(body):
-        if isinstance(st, ast.If) and not st.orelse and len(st.body) == 1 and isinstance(st.body[0], ast.Return) and st.body[0].value is None and i + 1 < len(body):
+        if isinstance(st, ast.If) and not st.orelse and st.body and isinstance(st.body[-1], ast.Return) and st.body[-1].value is None and i + 1 < len(body) and not any(isinstance(n, ast.Return) for b in st.body[:-1] for n in ast.walk(b)):
+            # `if c: <work>; return` + rest  ->  `if c: <work> / else: rest`
             rest = _fold_guard_returns(body[i + 1 :], parents)
-            new_if = ast.copy_location(ast.If(test=st.test, body=[ast.copy_location(ast.Pass(), st.body[0])], orelse=rest), st)
+            new_if = ast.copy_location(ast.If(test=st.test, body=list(st.body[:-1]) or [ast.copy_location(ast.Pass(), st.body[0])], orelse=rest), st)
             if st in parents:
                 parents[new_if] = parents[st]
             return body[:i] + [new_if]
@@ -205,7 +241,7 @@ def inline(ctx, f: FuncInfo, want: Callable[[FuncInfo], bool] | None = None) -> 
     if key in cache:
         return cache[key]
     # private helpers: a private name, or any function of a private module of the package (`_util.py`)
-    want = want or (lambda h: (h.name.startswith("_") and not h.name.startswith("__")) or (h.cls is None and h.module.name.rsplit(".", 1)[-1].startswith("_") and not h.module.name.endswith("__init__") and not h.name.startswith("__")))
+    want = want or (lambda h: (h.name.startswith("_") and not h.name.startswith("__")) or (h.cls is None and h.module.name.rsplit(".", 1)[-1].startswith("_") and not h.module.name.endswith("__init__") and not h.name.startswith("__")) or (h.cls is not None and not h.name.startswith("__") and _carries_buffers(h.cls)))
     parents = ctx.prog.parents
     changed = [False]
     inlined: list[str] = []
@@ -243,6 +279,9 @@ def inline(ctx, f: FuncInfo, want: Callable[[FuncInfo], bool] | None = None) -> 
                 if d is None:
                     return None
                 amap[p] = d
+        foreign = isinstance(call.func, ast.Attribute) and isinstance(call.func.value, ast.Name) and call.func.value.id not in ("self", "cls") and h.cls is not None and not ctor_chain and not is_nested and h.positional_params[:1] == ["self"]
+        if foreign:
+            amap["self"] = call.func.value  # the receiver: renamed in the body below (or no inlining)
         body = list(h.node.body)
         if body and isinstance(body[0], ast.Expr) and isinstance(body[0].value, ast.Constant):
             body = body[1:]
@@ -277,9 +316,28 @@ def inline(ctx, f: FuncInfo, want: Callable[[FuncInfo], bool] | None = None) -> 
         for p_, a_ in list(amap.items()):
             if isinstance(a_, ast.Name) and a_.id != p_ and p_ not in h_stores and a_.id not in h_locals and a_.id not in h.params and not any(isinstance(n_, ast.Name) and n_.id == a_.id for n_ in ast.walk(h.node)) and not any(isinstance(x_, (ast.FunctionDef, ast.AsyncFunctionDef, ast.Lambda)) for x_ in ast.walk(h.node) if x_ is not h.node):
                 direct_ren[p_] = a_.id
-        if direct_ren and len(set(direct_ren.values())) == len(direct_ren):
+        # a parameter that is handed `<name>.<buffer attribute>` (an attribute that is never re-bound) is that expression
+        direct_attr = {}
+        for p_, a_ in list(amap.items()):
+            if isinstance(a_, ast.Attribute) and a_.attr in STABLE_ATTRS and isinstance(a_.value, ast.Name) and p_ not in h_stores and not any(isinstance(x_, (ast.FunctionDef, ast.AsyncFunctionDef, ast.Lambda)) for x_ in ast.walk(h.node) if x_ is not h.node):
+                if a_.value.id in h_locals or a_.value.id in h.params:
+                    continue  # the helper has a name of its own spelled like the receiver
+                direct_attr[p_] = a_
+        if foreign and "self" not in direct_ren:
+            return None
+        if len(set(direct_ren.values())) != len(direct_ren):
+            if foreign:
+                return None
+            direct_attr = {}
+        if (direct_ren or direct_attr) and len(set(direct_ren.values())) == len(direct_ren):
             class _DR(ast.NodeTransformer):
                 def visit_Name(self, n):
+                    if n.id in direct_attr and isinstance(n.ctx, ast.Load):
+                        a0 = direct_attr[n.id]
+                        new_ = ast.copy_location(ast.Attribute(value=ast.copy_location(ast.Name(id=a0.value.id, ctx=ast.Load()), n), attr=a0.attr, ctx=ast.Load()), n)
+                        new_._mod = getattr(a0, "_mod", None) or h.module  # type: ignore[attr-defined]
+                        new_.value._mod = new_._mod  # type: ignore[attr-defined]
+                        return new_
                     if n.id in direct_ren:
                         n.id = direct_ren[n.id]
                     return n
@@ -291,7 +349,7 @@ def inline(ctx, f: FuncInfo, want: Callable[[FuncInfo], bool] | None = None) -> 
                         par._mod = h.module  # type: ignore[attr-defined]
                     for ch in ast.iter_child_nodes(par):
                         parents[ch] = par
-            amap = {direct_ren.get(p_, p_): (ast.copy_location(ast.Name(id=direct_ren[p_], ctx=ast.Load()), a_) if p_ in direct_ren else a_) for p_, a_ in amap.items()}
+            amap = {direct_ren.get(p_, p_): (ast.copy_location(ast.Name(id=direct_ren[p_], ctx=ast.Load()), a_) if p_ in direct_ren else a_) for p_, a_ in amap.items() if p_ not in direct_attr}
             rets = [n for s_ in body for n in ast.walk(s_) if isinstance(n, ast.Return)]
             final_ret = body[-1] if body and isinstance(body[-1], ast.Return) else None
         tgt_names0 = set() if tgt is None or not isinstance(tgt, (ast.Name, ast.Tuple)) else {tgt.id} if isinstance(tgt, ast.Name) else {x.id for x in tgt.elts if isinstance(x, ast.Name)}
